@@ -60,7 +60,8 @@ func qSnapshot() []gInfo {
 	return gs
 }
 
-var qMarkers = [][]byte{[]byte("github.com/pinealctx/neptune/"), []byte("nvharness/")}
+// a goroutine of the runner commands that has not yet entered library code is recognised by its source path
+var qMarkers = [][]byte{[]byte("github.com/pinealctx/neptune/"), []byte("nvharness/"), []byte("/cmd/c14/"), []byte("/cmd/c15/")}
 
 func qRelevant(g gInfo) bool {
 	for _, m := range qMarkers {
